@@ -198,6 +198,39 @@ pub fn run(tier: Tier) -> i32 {
             |c: &Case, st| oracle(c, st),
         );
     }
+    if !run.failed() {
+        run_prop(
+            &mut run,
+            "rational-amounts",
+            "1-4 ingredients with amounts p/q (p 1..24, q 1..12; written as a fraction, a mixed number or the decimal the division gives) in units where fractions are shown (cup, tsp, tbsp, lb, oz, inch, fl oz) or not (g, l, none), scaled by r/s (1..12 each) and converted: the products sit on or one float step next to the fractions of the table, where the recorded error is zero or tiny; same stages and oracle as above; distinct = distinct (source, factor, conversion)",
+            || {
+                (
+                    proptest::collection::vec((1u32..24, 1u32..12, 0u8..3, proptest::sample::select(vec!["cup", "tsp", "tbsp", "lb", "oz", "inch", "fl oz", "g", "l", ""])), 1..=4),
+                    (1u32..=12, 1u32..=12),
+                    0u8..3,
+                )
+                    .prop_map(|(items, (r, s), convert)| {
+                        let mut src = String::from("Mix");
+                        for (k, (p, q, form, unit)) in items.iter().enumerate() {
+                            let amount = match form {
+                                0 => format!("{p}/{q}"),
+                                1 if p > q && p % q != 0 => format!("{} {}/{q}", p / q, p % q),
+                                _ => format!("{}", *p as f64 / *q as f64),
+                            };
+                            let unit = if unit.is_empty() { String::new() } else { format!("%{unit}") };
+                            src.push_str(&format!(" @i{k}{{{amount}{unit}}}"));
+                        }
+                        src.push_str(".\n");
+                        Case { input: InputCase { pieces: vec![src], ext: EXT_ALL, conv: 1 }, stage: 2, factor_bits: (r as f64 / s as f64).to_bits(), convert }
+                    })
+            },
+            tier.pick(20_000, 1_000_000),
+            |c: &Case, st| {
+                st.sample(|| c.input.describe());
+                oracle(c, st)
+            },
+        );
+    }
     run.finish()
 }
 
